@@ -34,6 +34,7 @@ def _paveba_family(name):
         cert = Specs(A).cert_paveba(A.S0, A.U0, A.REG0)
         bounded = lambda: unrolled_transition(t, A, ALGOS[name], name + ".discarding", "exactly_certified_designs_leave(zero slack, witness in S u U)",
                                               S=lambda e: z3.And(z3.Select(A.S0, e), z3.Not(cert(e))))
+        t.bounded_fn = bounded
         try:
             paths = t.run(ALGOS[name], name + ".discarding", [], self_val=A.obj, setmode=True)
         except Unsupported as ex_:
@@ -64,6 +65,7 @@ def _pess_set(name):
         A = AlgoState(t, name, with_U=False)
         bounded = lambda: unrolled_transition(t, A, ALGOS[name], name + ".compute_pessimistic_set", "designs_no_other_active_design_pessimistically_dominates",
                                               result=lambda e: ps_spec(A, e))
+        t.bounded_fn = bounded
         try:
             paths = t.run(ALGOS[name], name + ".compute_pessimistic_set", [], self_val=A.obj, setmode=True)
         except Unsupported as ex_:
@@ -116,6 +118,7 @@ def _vogp_family(name, slack_of):
             unrolled_transition(t, A, ALGOS[name], name + ".discarding", "exactly_non_pessimistic_designs_certified_by_a_pessimistic_witness_leave(eps slack)",
                                 S=lambda e: z3.And(z3.Select(A.S0, e), z3.Not(certb(e))),
                                 without_contracts=[ALGOS[name] + "::" + name + ".compute_pessimistic_set"])
+        t.bounded_fn = bounded
         try:
             paths = t.run(ALGOS[name], name + ".discarding", [], self_val=A.obj, setmode=True)
         except Unsupported as ex_:
